@@ -3,9 +3,9 @@
 
     A read of a stored part either yields octets or reports an error.  The
     property: the octets are the part's OWN octets; an error may be reported
-    only when a backend failed.  raven's three read sites have no error
-    channel at all (failures end in the empty string and the command answers
-    OK), so the implementation's observation is always [Some s]. *)
+    only when a backend failed.  (Before the repair "blob-read-errors" raven's
+    read sites had no error channel: failures ended in the empty string and
+    the command answered OK.) *)
 From Coq Require Import String Ascii List Bool.
 From Raven Require Import Base.GoStr.
 Import ListNotations.
@@ -28,5 +28,3 @@ Proof.
   destruct res as [s|]; simpl; [apply str_eqb_eq|tauto].
 Qed.
 
-(** what raven's read sites let the client observe of a read that produced [s] *)
-Definition observed (s : str) : option str := Some s.
